@@ -48,6 +48,7 @@ pub struct Sim {
     pub big: bool,
     /// buffered bus (see `Scenario::fifo`): writes wait here until `flush` / a read / the end of the call
     pub fifo: bool,
+    pub slow: Option<usize>,
     pub pending: Vec<Vec<u8>>,
     pub hung: bool,
 }
@@ -71,6 +72,7 @@ impl Sim {
             dc2: [false; 2],
             big: false,
             fifo: false,
+            slow: None,
             pending: vec![],
             hung: false,
         }
@@ -162,20 +164,25 @@ impl Sim {
             self.raise_busy();
         }
     }
-    pub fn read_busy(&mut self) -> bool {
+    pub fn read_busy(&mut self, pin: usize) -> bool {
         self.polls += 1;
         if self.polls > POLL_CAP {
             self.hung = true;
             self.flush_group();
             panic!("HANG");
         }
-        let lvl = if self.busy > 0 {
+        let other = matches!(self.slow, Some(k) if k != pin);
+        let lvl = if !other && self.busy > 0 {
             self.busy -= 1;
             self.busylvl
         } else {
             !self.busylvl
         };
-        self.event(&format!("B {}", lvl as u8));
+        if self.big {
+            self.event(&format!("B {} {}", lvl as u8, pin));
+        } else {
+            self.event(&format!("B {}", lvl as u8));
+        }
         lvl
     }
 }
@@ -305,16 +312,16 @@ impl OutputPin for MockOut {
     }
 }
 
-pub struct MockIn(pub Shared);
+pub struct MockIn(pub Shared, pub usize);
 impl DErrorType for MockIn {
     type Error = MockErr;
 }
 impl InputPin for MockIn {
     fn is_high(&mut self) -> Result<bool, MockErr> {
-        Ok(self.0.borrow_mut().read_busy())
+        Ok(self.0.borrow_mut().read_busy(self.1))
     }
     fn is_low(&mut self) -> Result<bool, MockErr> {
-        Ok(!self.0.borrow_mut().read_busy())
+        Ok(!self.0.borrow_mut().read_busy(self.1))
     }
 }
 
